@@ -48,3 +48,14 @@ From V Require Proofs.ConstsConform.
 Theorem C04_disk_constants_conform : V.Proofs.ConstsConform.disk_constants_conform.
 Proof. exact V.Proofs.ConstsConform.disk_constants_ok. Qed.
 Print Assumptions C04_disk_constants_conform.
+
+(* the ownership part of the executable invariant wf_disk means what C04 says: when it reports nothing, no
+   block has two owners, every owned data block is marked in use, and every block marked in use is owned *)
+From V Require Proofs.AbsOwn Model.Abs.
+Theorem C04_ownership_report_sound : forall l (owned used : list N),
+  V.Model.Abs.own_errors l owned used = nil ->
+  stdpp.base.NoDup owned /\
+  (forall b, stdpp.base.elem_of b owned -> V.Model.Abs.in_data l b = true -> stdpp.base.elem_of b used) /\
+  (forall b, stdpp.base.elem_of b used -> stdpp.base.elem_of b owned).
+Proof. exact V.Proofs.AbsOwn.own_errors_nil. Qed.
+Print Assumptions C04_ownership_report_sound.
